@@ -49,7 +49,7 @@ def main(tier, seed):
                         % cov.get('A_alphabet_reduced', 0) if depth3 else ''),
         'alphabet': 'name forms {canonical, CANONICAL, inline synonyms, SYNONYM/Mixed, out-of-line synonym and its inline '
                     'synonym (both cases), wildcard keys pri:1:w pri:2:w pri_1_w, PRI:1:W, unknown zz/metho/pri:1:x} x '
-                    'separators {=, " = ", blank} x ints {0,-7,42,99999999999} / doubles {1.5,-2e3,1e400} / strings '
+                    'separators {=, " = ", blank} x ints {0,-7,42,010,99999999999} / doubles {1.5,-2e3,1e400} / strings '
                     '{abc, \'a b\', "q\'q", \'\', ?x} + name=? + flag + flag=1; reduced alphabet = explicit list in opt_harness.cc (every option, name-form class, item kind; values and separators thinned)',
         'totality': 'all byte strings of length <= %d over {a = blank \' " ? 0 - . 0x80} x prefixes {none, n=, s=, s=\', d=} x '
                     '{ParseOptionString(flags=0), ParseOptions(argv)} + %d long-token strings (48..4096 bytes)'
